@@ -103,9 +103,22 @@ Json gen(sim::Rng& rng, int tier)
         for (int k = 0; k < nm; ++k) {
             Json m = Json::object();
             std::string bytes = hostile_message(rng, max_size);
-            m["msg"] = bytes;
             Json cuts = Json::array();
-            for (size_t x : msggen::gen_cuts(rng, bytes, 6)) cuts.push(static_cast<long>(x));
+            if (rng.chance(0.12)) {
+                // a slow sender: a well-formed request within the limit whose first header line is long, and whose remaining
+                // header bytes arrive in very many small reads (whatever the parser keeps per read adds up)
+                size_t longv = std::min<size_t>(max_size / 2, static_cast<size_t>(200 + rng.below(2800)));
+                bytes = "GET /trickle HTTP/1.1\r\nX-Long: " + msggen::token(rng, static_cast<int>(longv), static_cast<int>(longv)) + "\r\n";
+                size_t first = bytes.size();
+                int nh = static_cast<int>(rng.range(2, 8));
+                for (int h = 0; h < nh && bytes.size() + 64 < max_size; ++h) bytes += "X-H" + std::to_string(h) + ": " + msggen::token(rng, 1, 30) + "\r\n";
+                bytes += "\r\n";
+                size_t step = static_cast<size_t>(rng.range(1, 3));
+                for (size_t x = first; x < bytes.size(); x += step) cuts.push(static_cast<long>(x));
+                m["trickle"] = true;
+            } else
+                for (size_t x : msggen::gen_cuts(rng, bytes, 6)) cuts.push(static_cast<long>(x));
+            m["msg"] = bytes;
             m["cuts"] = cuts;
             msgs.push(m);
         }
@@ -151,7 +164,7 @@ void run(const Json& plan)
                 i64 x = msgs.at(k).get("cuts").at(q).as_int();
                 if (x > 0 && x < static_cast<i64>(bytes.size())) cuts.push_back(static_cast<size_t>(x));
             }
-            st.push_back(httpw::send_step(bytes, cuts, gap));
+            st.push_back(httpw::send_step(bytes, cuts, msgs.at(k).flag("trickle") ? std::min<i64>(gap, 300 * 1000) : gap));
             st.push_back(httpw::step(Step::Pause, 3 * 1000000LL)); // whatever the server makes of it
         }
         std::string end = c.str("end", "close");
@@ -212,6 +225,17 @@ void run(const Json& plan)
         std::string want = httpw::SimHandler::echo_body("POST", "/echo/n" + std::to_string(k), "", "body" + std::to_string(k));
         if (resp.status != 200 || resp.body != want) r.violation("C03.neighbour:wrong-answer", what + " was answered " + std::to_string(resp.status) + " '" + resp.body.substr(0, 60) + "'");
     }
+    // what a handler is handed was cut out of at most max_req received bytes
+    for (auto& rr : w.requests) {
+        size_t kept = rr.resource.size() + rr.query.size() + rr.body.size();
+        for (auto& h : rr.headers) kept += h.first.size() + h.second.size();
+        if (kept > o.max_req + 16) {
+            r.violation("C03.memory:message-retains-more-than-maximum-request-size", "the request " + rr.method + " " + rr.resource.substr(0, 40) + " reached the handler holding " + std::to_string(kept) + " bytes of resource, query, raw headers and body with a maximum request size of " + std::to_string(o.max_req));
+            break;
+        }
+    }
+    for (auto& rr : w.requests)
+        if (rr.resource == "/trickle") r.probe("trickled-request-served");
     if (simalloc::available()) {
         r.stats["max_single_allocation"] = static_cast<i64>(max_alloc);
         size_t bound = 4 * o.max_req + 65536;
